@@ -255,6 +255,65 @@ pub open spec fn ratios_pos(txs: Seq<GbpTransaction>) -> bool {
         && (txs[i].operation is Unsplit ==> txs[i].operation->Unsplit_ratio.v() > 0real))
 }
 
+
+// ---------- L2: what the day loop of Matcher::process maintains ----------
+/// C03.offsets_carried / C01.lot: every lot is the BUY line it was created from (same date, quantity, price, fees)
+/// and carries that line's capital-return/accumulation offset
+pub open spec fn lot_is_tx(l: AcquisitionLot, t: Seq<char>, txs: Seq<GbpTransaction>, offsets: Seq<Decimal>) -> bool {
+    let k = l.transaction_idx as int;
+    &&& k < txs.len() && txs[k].operation is Buy && txs[k].ticker@ == t
+    &&& l.date == txs[k].date && l.original_amount == txs[k].operation->Buy_amount
+    &&& l.price == txs[k].operation->Buy_price && l.expenses == txs[k].operation->Buy_fees
+    &&& l.cost_offset.v() == offset_at(offsets, k)
+}
+pub open spec fn inv_lots(m: Map<Seq<char>, matcher::AcquisitionLedger>, txs: Seq<GbpTransaction>, offsets: Seq<Decimal>) -> bool {
+    forall|t: Seq<char>, j: int| #![trigger m[t]@[j]] m.contains_key(t) && 0 <= j < m[t]@.len() ==> lot_is_tx(m[t]@[j], t, txs, offsets)
+}
+/// C01.day_order / C02.pooling: shares bought before day d are all allocated (matched, reserved or pooled): only the
+/// current day's purchases can be matched Same Day
+pub open spec fn inv_done_before(m: Map<Seq<char>, matcher::AcquisitionLedger>, d: int) -> bool {
+    forall|t: Seq<char>, j: int| #![trigger m[t]@[j]] m.contains_key(t) && 0 <= j < m[t]@.len() ==> m[t]@[j].date.d() <= d && (m[t]@[j].date.d() < d ==> lot_avail(m[t]@[j]) == 0real)
+}
+/// nothing bought today has been pooled yet (pooling happens after the day's sales)
+pub open spec fn today_unpooled(s: Seq<AcquisitionLot>, d: int) -> bool {
+    forall|j: int| 0 <= j < s.len() ==> ((#[trigger] s[j]).date.d() == d ==> s[j].in_pool.v() == 0real)
+}
+/// every BUY line of `ticker` dated d among txs[lo..hi) has its lot in the ledger (purchases are added before the day's sales)
+pub open spec fn buys_added(s: Seq<AcquisitionLot>, txs: Seq<GbpTransaction>, lo: int, hi: int, ticker: Seq<char>) -> bool {
+    forall|k: int| lo <= k < hi && (#[trigger] txs[k]).operation is Buy && txs[k].ticker@ == ticker ==> exists|j: int| 0 <= j < s.len() && #[trigger] s[j].transaction_idx == k
+}
+
+
+pub open spec fn lots_state(m: Map<Seq<char>, matcher::AcquisitionLedger>, cur: int) -> bool {
+    forall|t: Seq<char>, j: int| #![trigger m[t]@[j]] m.contains_key(t) && 0 <= j < m[t]@.len() ==> m[t]@[j].date.d() <= cur && (m[t]@[j].date.d() < cur ==> lot_avail(m[t]@[j]) == 0real)
+}
+pub open spec fn lots_today_unpooled(m: Map<Seq<char>, matcher::AcquisitionLedger>, cur: int) -> bool {
+    forall|t: Seq<char>| #[trigger] m.contains_key(t) ==> today_unpooled(m[t]@, cur)
+}
+pub open spec fn all_allocated(m: Map<Seq<char>, matcher::AcquisitionLedger>) -> bool {
+    forall|t: Seq<char>, j: int| #![trigger m[t]@[j]] m.contains_key(t) && 0 <= j < m[t]@.len() ==> lot_avail(m[t]@[j]) == 0real
+}
+pub open spec fn lots_before(m: Map<Seq<char>, matcher::AcquisitionLedger>, d: int) -> bool {
+    forall|t: Seq<char>, j: int| #![trigger m[t]@[j]] m.contains_key(t) && 0 <= j < m[t]@.len() ==> m[t]@[j].date.d() < d
+}
+pub open spec fn has_lot_idx(s: Seq<AcquisitionLot>, k: int) -> bool { exists|j: int| 0 <= j < s.len() && #[trigger] s[j].transaction_idx == k }
+pub open spec fn buys_added_all(m: Map<Seq<char>, matcher::AcquisitionLedger>, txs: Seq<GbpTransaction>, lo: int, hi: int) -> bool {
+    forall|k: int| lo <= k < hi && (#[trigger] txs[k]).operation is Buy ==> m.contains_key(txs[k].ticker@) && has_lot_idx(m[txs[k].ticker@]@, k)
+}
+pub open spec fn day_range(txs: Seq<GbpTransaction>, i: int, day_end: int, cur: int) -> bool {
+    0 <= i < day_end <= txs.len() && forall|k: int| 0 <= k < txs.len() ==> ((#[trigger] txs[k]).date.d() == cur <==> i <= k < day_end)
+}
+/// every BUY of the sale's security on the sale's day already has its lot (C01.day_order)
+pub open spec fn todays_buys_in_ledger(m: Map<Seq<char>, matcher::AcquisitionLedger>, txs: Seq<GbpTransaction>, tx: GbpTransaction) -> bool {
+    forall|k: int| 0 <= k < txs.len() && (#[trigger] txs[k]).date.d() == tx.date.d() && txs[k].operation is Buy && txs[k].ticker@ == tx.ticker@
+        ==> m.contains_key(tx.ticker@) && has_lot_idx(m[tx.ticker@]@, k)
+}
+/// pooled: for every BUY among txs[lo..hi) nothing of that security bought on day cur is still unallocated
+pub open spec fn pooled_upto(m: Map<Seq<char>, matcher::AcquisitionLedger>, txs: Seq<GbpTransaction>, lo: int, hi: int, cur: int) -> bool {
+    forall|k: int, j: int| #![trigger txs[k], m[txs[k].ticker@]@[j]] lo <= k < hi && txs[k].operation is Buy && m.contains_key(txs[k].ticker@) && 0 <= j < m[txs[k].ticker@]@.len()
+        && m[txs[k].ticker@]@[j].date.d() == cur ==> lot_avail(m[txs[k].ticker@]@[j]) == 0real
+}
+
 // ---------- proceeds ----------
 /// C04.pro_rata: the share of the day's sale attributed to a leg of q out of Q shares
 pub open spec fn pro_rata_gross(q: real, price: real) -> real { q * price }
